@@ -545,9 +545,13 @@ def _run_queue(case, run, sch, np, clock):
         # (the constructor's own max_utilization argument is overwritten by its call of `update`)
         a = sch.Allocation(partition='p')
         if t.get('prev'):
+            # the allocation is first loaded with an earlier record; a cycle may run on that (whatever the queue
+            # computes then - totals of reservations per level - is computed again on the record loaded last)
             pv = t['prev']
             a.update(list(pv['res']), pv['rank'], pv['adj'], pv['maxu'])
-        a.update(list(t['res']), t['rank'], t['adj'], t['maxu'])
+            reloads.append((a, t))
+        else:
+            a.update(list(t['res']), t['rank'], t['adj'], t['maxu'])
         names = set()
         for ad in t['apps']:
             _arrive(clock, ad['ord'])
@@ -567,8 +571,17 @@ def _run_queue(case, run, sch, np, clock):
         return a
     moved = {m[0]: m[1] for m in case.get('moves', [])}
     pending = []
+    reloads = []
     root = mk(case['tree'], [])
     root.path = ['root']
+    if reloads:
+        try:
+            list(root.utilization_queue(sch.eps_capacity()))      # the cycle that ran before the reload
+        except TypeError:
+            pass
+        for a_, t_ in reloads:
+            a_.update(list(t_['res']), t_['rank'], t_['adj'], t_['maxu'])
+        run.tags.add('queue-before-reload')
     # moves: first into some other allocation, then Cell.add_app into the final one
     for app, final in pending:
         first = info[moved[aid(app.name)] % len(info)]['alloc']
